@@ -306,6 +306,37 @@ func c11LibWorker(in, out string) {
 					break
 				}
 			}
+			if i%10 == 4 {
+				// a crowd between two bursts of one client: the client spends its bucket, 10 050 other addresses send one
+				// request each within two (virtual) seconds, the client comes back. However the limiter bounds its
+				// table, it may not hand a throttled client a fresh bucket inside the same window.
+				cmw := server.RateLimitMiddleware(server.RateLimiterConfig{RequestsPerMinute: n, BurstSize: n})
+				var cran atomic.Int64
+				victim := "10.200.1.1:7000"
+				c11Clock.Store(5000)
+				first := 0
+				for k := 0; k < n+2; k++ {
+					if st, _ := c11Serve(cmw, &cran, c11Ev{Client: victim}); st == 200 {
+						first++
+					}
+				}
+				for k := 0; k < 10050; k++ {
+					c11Clock.Store(5000 + int64(k)/5)
+					c11Serve(cmw, &cran, c11Ev{Client: fmt.Sprintf("10.%d.%d.%d:6000", 100+k/62500, (k/250)%250, k%250+1)})
+				}
+				c11Clock.Store(7100)
+				later := 0
+				for k := 0; k < n+2; k++ {
+					if st, _ := c11Serve(cmw, &cran, c11Ev{Client: victim}); st == 200 {
+						later++
+					}
+				}
+				bound := float64(n)*(1+2100.0/60000.0) + 1
+				w.Count("crowd_scenarios", 1)
+				if float64(first+later) > bound {
+					w.Violate("over-admitted-after-a-crowd-of-other-clients:library", fmt.Sprintf("limit %d/min: the client was admitted %d times, then 10050 other addresses sent one request each, then it was admitted %d more times within 2.1 s (bound %.2f)", n, first, later, bound), map[string]interface{}{"limit": n, "first": first, "later": later})
+				}
+			}
 			w.Count("concurrent_floods", 1)
 			w.Case(fmt.Sprintf("flood-%d-%d", i, n), true)
 			if int(admitted.Load()) > n || int(ran.Load()) != int(admitted.Load()) {
